@@ -27,3 +27,11 @@ claim("C03", "DESIGN.md 5/C03",
       "primary/secondary SRCs, plus a layout sweep over 0..3 callouts x all 16 FRU flag nibbles x PCE x MRU counts with "
       "the two bytes after the section symbolic, a fixture registry for %N substitution and the procedure table; "
       "215 cases, each 'Confirmed over all paths'.")
+
+claim("C01", "DESIGN.md 5/C01",
+      "parseHeader + sectionFun are executed on one section of every decoded type with its framing fields symbolic "
+      "(EH symptom length, LP name length x target count, UD/ED/other declared length, other section ids, SRC callout "
+      "layouts) and the two following bytes symbolic: the cursor must stop exactly at the declared length and the entry "
+      "must equal the decode of the section's own bytes; the real parsePEL loop runs on catalogue orderings with "
+      "symbolic ids of hexdump-only sections against an independent naming/numbering oracle; buildOutput is driven "
+      "with symbolic names. Every harness 'Confirmed over all paths'.")
